@@ -1,4 +1,5 @@
 import PvModel.Props.C03
+import PvModel.Props.C03Query
 #print axioms Pv.C03_closed
 #print axioms Pv.C03_closed_query
 #print axioms Pv.C03_names
@@ -7,3 +8,4 @@ import PvModel.Props.C03
 #print axioms Pv.C03_anyvars_complete
 #print axioms Pv.C03_relevant_complete
 #print axioms Pv.C03_answer_shape
+#print axioms Pv.C03_query_answers_closed
